@@ -183,12 +183,29 @@ func judgeLO(w gen.World, call LOCall, truth semkit.LOTruth, objs []string, err 
 // under an intersection or exclusion, even on an empty store.
 const SigWeightedLODuplicateDirect = "C05/weighted-listobjects-internal-error-duplicate-direct-operands"
 
+// SigPipelineHangDuplicateDirect: the streaming ListObjects pipeline never
+// returns (and ignores its deadline) for a model whose relation repeats the
+// direct-assignment operand (API-only model shape), even on an empty store:
+// workers of the cycle group wait for each other's media to close.
+const SigPipelineHangDuplicateDirect = "C20/pipeline-listobjects-hang-duplicate-direct-operands"
+
+// skipKnownPipelineHang excludes, by construction, the calls that would hit
+// the recorded pipeline hang (each costs the whole hang limit and leaks
+// goroutines); the exclusion is counted. Replays are never skipped.
+func skipKnownPipelineHang(env *fw.Env, engine string, mo *m.Model) bool {
+	if env.Replay || engine != "pipeline" || !hasDuplicateDirectOperands(mo) || !fw.IsKnown(SigPipelineHangDuplicateDirect) {
+		return false
+	}
+	env.Rec.Known(SigPipelineHangDuplicateDirect)
+	return true
+}
+
 func hasDuplicateDirectOperands(mo *m.Model) bool {
 	for _, td := range mo.Types {
 		for _, r := range td.Relations {
 			dup := false
 			r.Rewrite.Walk(func(n *m.Rewrite) {
-				if n.Kind != m.Intersection && n.Kind != m.Difference {
+				if n.Kind != m.Intersection && n.Kind != m.Difference && n.Kind != m.Union {
 					return
 				}
 				cnt := 0
@@ -220,7 +237,20 @@ func checkC05(env *fw.Env, c C05Case) *fw.Failure {
 	for _, call := range c.Calls {
 		truth := semkit.RefListObjects(c.World, call.Req)
 		s := loServer(call.Engine, call.Limit, call.ShortDL)
-		objs, err, dt := runLO(s, storeID, modelID, call)
+		var objs []string
+		var err error
+		var dt time.Duration
+		if skipKnownPipelineHang(env, call.Engine, c.World.Model) {
+			continue
+		}
+		if !semkit.Watchdog(semkit.HangLimit(), func() { objs, err, dt = runLO(s, storeID, modelID, call) }) {
+			sig := ""
+			if call.Engine == "pipeline" && hasDuplicateDirectOperands(c.World.Model) {
+				sig = SigPipelineHangDuplicateDirect
+			}
+			return fw.Failf(sig, "ListObjects(%+v) engine=%s did not return within the hang limit (deadline %v)\n%s\nstuck goroutines:\n%s",
+				call.Req, call.Engine, map[bool]string{true: "1ms", false: "30s"}[call.ShortDL], semkit.Describe(c.World), semkit.GoroutineDump("listobjects"))
+		}
 		if semkit.IsTooComplex(err) {
 			env.Rec.Add("depth_excluded", 1)
 			continue
